@@ -33,6 +33,14 @@ pub trait DynObj {
     fn layout(&self) -> Option<crate::layout::Facts> {
         None
     }
+    /// the object read as raw machine words (erased side only)
+    fn raw_words(&self) -> Vec<usize> {
+        Vec::new()
+    }
+    /// number of leading vtable words (1 for single-trait objects)
+    fn n_vtbl_words(&self) -> usize {
+        1
+    }
 }
 
 /// conversion of a returned wrapped value into a handle
@@ -99,6 +107,11 @@ macro_rules! holder {
             }
             pub fn borrowed(o: O, arena: &Arena) -> Self {
                 Self { o: std::mem::ManuallyDrop::new(o), arena: Some(arena.clone()), _k: PhantomData }
+            }
+            pub fn words(&self) -> Vec<usize> {
+                let n = std::mem::size_of::<O>() / std::mem::size_of::<usize>();
+                let p = &*self.o as *const O as *const usize;
+                (0..n).map(|i| unsafe { *p.add(i) }).collect()
             }
             pub fn into_inner(self: Box<Self>) -> O {
                 let mut me = *self;
@@ -205,6 +218,9 @@ macro_rules! single {
             }
             fn call(&mut self, mi: usize, a: &mut A) -> Ret {
                 single!(@recv $recv, self, $call, mi, a)
+            }
+            fn raw_words(&self) -> Vec<usize> {
+                self.words()
             }
             fn cast(self: Box<Self>, _op: u8, _requested: u32, _mi: usize, _a: &mut A) -> (Option<Box<dyn DynObj>>, Ret) {
                 (Some(self), Ret::NoSuchMethod)
